@@ -234,6 +234,11 @@ func (s gxzScenario) classify(dir string) (in, tgt, tmp string, extra []string) 
 			extra = append(extra, n)
 		}
 	}
+	// the temporary file is whatever else gxz leaves in the directory: its name
+	// (<target>.compress today) is the implementation's choice
+	if tmp == "absent" && len(extra) > 0 {
+		tmp = class(extra[0], false)
+	}
 	return
 }
 
@@ -247,8 +252,11 @@ func (s gxzScenario) symbol(p string) string {
 		return "TMP"
 	case s.Tgt:
 		return "TGT"
+	case "", ".", "..", "/":
+		return ""
 	}
-	return ""
+	// any other name gxz touches inside the run directory is its temporary file
+	return "TMP"
 }
 
 func errnoFor(name string) syscall.Errno {
@@ -295,7 +303,7 @@ func runGxz(c *hx.Ctx, bin string, sc gxzScenario, plan ptr.Plan) (*gxzRun, erro
 	eof := false
 	for _, e := range res.Events {
 		a, bsym := sc.symbol(e.A), sc.symbol(e.B)
-		if a == "" {
+		if a == "" || e.A == dir {
 			continue
 		}
 		if sc.Cfg.Alias && e.Name == "renameat" {
